@@ -765,6 +765,10 @@ func (m *StateMachine) sendInitialActionSet(ctx context.Context) (
 		rlc.Reset(ctx, initRE.H, initRE.R)
 		rlc.HeightCommitted = hc
 
+		// The replayed header may have been committed in a later round than the one we asked for;
+		// the finalization must be recorded against, and will be answered with, that round.
+		rlc.R = rer.CH.Proof.Round
+
 		// This is a replay, so we can just tell the driver to finalize it.
 		finReq := tmdriver.FinalizeBlockRequest{
 			Header: rer.CH.Header,
@@ -1811,6 +1815,10 @@ func (m *StateMachine) advance(
 	} else {
 		// The state machine is still catching up with the mirror.
 		rlc.MarkCatchingUp()
+
+		// The replayed header may have been committed in a later round than the one we asked for;
+		// the finalization must be recorded against, and will be answered with, that round.
+		rlc.R = rer.CH.Proof.Round
 
 		// In replay, we just directly make a finalize block request.
 		finReq := tmdriver.FinalizeBlockRequest{
